@@ -63,6 +63,13 @@ def check(repo: Repo) -> Result:
     share(res, r7, "C03", lambda t: c03.apply_idiom(repo, t), ["C03-R2"], want=lambda k: k in ("convert_to_units", "in_units", "in_base", "in_base:result", "in_units:offset-zeroed-only-em"), min_keys=4)
     r8 = res.rule("C08-R8", "== and != answer all-False / all-True only for the dimension errors; the refusal of two different offset scales (InvalidUnitOperation) propagates", floor=2)
     share(res, r8, "C01", lambda t: c01.eq_ne(repo, t, UfuncAnchors(repo)), ["C01-R3"], want=lambda k: k in ("__eq__", "__ne__"), min_keys=2)
+
+    def _copy(t):
+        t.rule("C11-R4", "x")
+        c11.unit_copy_values(repo, t, "C11-R4")
+
+    r9 = res.rule("C08-R9", "a copied or deep-copied offset unit keeps its zero point: Unit.copy hands scale, offset and dimension of the original to the copy (a deep-copied 100 degC must still convert to 212 degF and still be refused by * / **; shared with C11-R4)", floor=1)
+    share(res, r9, "C11", _copy, ["C11-R4"], want=lambda k: k == "Unit.copy:values")
     return res
 
 
